@@ -320,10 +320,10 @@ func (t *Topic) close() {
 
 func (t *Topic) collect(event Event) error {
 
-	prev, ok := t.updateEvent(event.State)
-	if ok {
-		event.previousState = prev
-	}
+	// prev is the zero state if the event is new on this topic,
+	// do not keep a previous state from the topic the event was republished from.
+	prev, _ := t.updateEvent(event.State)
+	event.previousState = prev
 
 	t.collected.Add(1)
 
